@@ -148,7 +148,7 @@
     // ---- slice() end to end: Kani cannot finish on slice() (the drop/iteration glue of every dyn Object is explored
     // even for byte strings: > 5 min at length 0), so the per-kind glue is covered by a BOUNDED stand-in executed
     // natively on the property's own box. Not counted as proof.
-//# ob name=slice_box_native role=native_bounded fn=value::ops::slice kind=bounded bound="(thorough tier: len 0..=9, bounds in [-12,12], steps in [-7,7]; about 2*10^6 slices) kinds {bytes, ascii string, multi-byte string, list, tuple, lazy iterable} x len 0..=6 x start,stop in {omitted} U [-9,9] U {i64::MIN, i64::MIN+1, i64::MAX-1, i64::MAX} x step in {omitted} U [-4,4] U {i64::MIN, i64::MIN+1, i64::MAX}: exhaustive (about 3*10^5 slices), native execution of the real function" stmt="slice() returns exactly Python's selection in Python's order with the kind preserved (string from string, bytes from bytes, tuple from tuple, list-like otherwise); step 0 is the only error; no panic"
+//# ob name=slice_box_native role=native_bounded fn=value::ops::slice kind=bounded bound="(thorough tier: len 0..=9, bounds in [-12,12], steps in [-7,7]; about 2*10^6 slices) kinds {lazy iterable WITHOUT a known length (added in the fourth session), bytes, ascii string, multi-byte string, list, tuple, lazy iterable} x len 0..=6 x start,stop in {omitted} U [-9,9] U {i64::MIN, i64::MIN+1, i64::MAX-1, i64::MAX} x step in {omitted} U [-4,4] U {i64::MIN, i64::MIN+1, i64::MAX}: exhaustive (about 3*10^5 slices), native execution of the real function" stmt="slice() returns exactly Python's selection in Python's order with the kind preserved (string from string, bytes from bytes, tuple from tuple, list-like otherwise); step 0 is the only error; no panic"
     fn slice_box_native() {
         fn expected_indices(n: usize, start: Option<i64>, stop: Option<i64>, step: i64) -> Vec<usize> {
             let mut v = Vec::new();
@@ -174,7 +174,7 @@
         for s in [i64::MIN, i64::MIN + 1, i64::MAX] { steps.push(Some(s)); }
         let chars_multi = ['a', 'é', '漢', 'b', '😀', 'c', 'ß', 'd', '𝄞'];
         let mut checked = 0u64;
-        for kind in 0..6u8 {
+        for kind in 0..7u8 {
             for n in 0..=maxlen {
                 for &start in &bounds { for &stop in &bounds { for &step in &steps {
                     let value = match kind {
@@ -183,7 +183,9 @@
                         2 => Value::from(chars_multi[..n].iter().collect::<String>()),
                         3 => Value::from((0..n as i64).map(Value::from).collect::<Vec<_>>()),
                         4 => Value::from(crate::value::Tuple::from((0..n as i64).map(Value::from).collect::<Vec<_>>())),
-                        _ => Value::make_iterable(move || (0..n as i64).map(Value::from)),
+                        5 => Value::make_iterable(move || (0..n as i64).map(Value::from)),
+                        // a lazy iterable WITHOUT a known length (what select / map / reject produce)
+                        _ => Value::make_iterable(move || (0..n as i64).filter(|x| *x >= 0).map(Value::from)),
                     };
                     let res = slice(value, opt_val(start), opt_val(stop), opt_val(step));
                     let k = step.unwrap_or(1);
@@ -219,4 +221,28 @@
             }
         }
         assert!(checked > 250_000);
+        // subscripts: v[i] is Python's element for -n <= i < n and undefined otherwise, for every kind (the lazy kinds
+        // with and without a known length, and a one-shot iterator)
+        for kind in 0..8u8 { for n in 0..=6usize { for idx in -9i64..=9 {
+            let value = match kind {
+                0 => Value::from_bytes((0..n as u8).collect()),
+                1 => Value::from((0..n).map(|i| (b'a' + i as u8) as char).collect::<String>()),
+                2 => Value::from(chars_multi[..n].iter().collect::<String>()),
+                3 => Value::from((0..n as i64).map(Value::from).collect::<Vec<_>>()),
+                4 => Value::from(crate::value::Tuple::from((0..n as i64).map(Value::from).collect::<Vec<_>>())),
+                5 => Value::make_iterable(move || (0..n as i64).map(Value::from)),
+                6 => Value::make_iterable(move || (0..n as i64).filter(|x| *x >= 0).map(Value::from)),
+                _ => Value::make_one_shot_iterator((0..n as i64).filter(|x| *x >= 0).map(Value::from)),
+            };
+            let got = value.get_item(&Value::from(idx)).unwrap_or(Value::UNDEFINED);
+            let pos = if idx < 0 { idx + n as i64 } else { idx };
+            let ctx = format!("kind={kind} n={n} [{idx}] got {got:?}");
+            if pos < 0 || pos >= n as i64 { assert!(got.is_undefined(), "out of range subscript must be undefined: {ctx}"); continue; }
+            match kind {
+                0 => assert!(i64::try_from(got.clone()).ok() == Some(pos), "{ctx}"),
+                1 => assert!(got.as_str() == Some(&((b'a' + pos as u8) as char).to_string()[..]), "{ctx}"),
+                2 => assert!(got.as_str() == Some(&chars_multi[pos as usize].to_string()[..]), "{ctx}"),
+                _ => assert!(i64::try_from(got.clone()).ok() == Some(pos), "{ctx}"),
+            }
+        }}}
     }
